@@ -48,6 +48,8 @@ class Conversation(object):
         self.dead = False
         if rng.random() < 0.85:
             self.flush()
+        if rng.random() < 0.2 and not self.dead:
+            self.squeeze()
 
     # ------------------------------------------------------------------------------------------------------------
     def run(self, op):
@@ -103,6 +105,36 @@ class Conversation(object):
             for c in (0, 1):
                 if self.outbuf(c) and not self.dead:
                     self.run({'op': 'xfer', 'c': c, 'to': 1 - c, 'n': None})
+
+    def squeeze(self):
+        """a recipe: one side has body bytes outstanding on a stream when the other lowers INITIAL_WINDOW_SIZE below
+        them (the sender's window goes negative, RFC 7540 6.9.2), then reopens the stream window by WINDOW_UPDATEs;
+        the sender goes on sending exactly what it is told it may"""
+        rng = self.rng
+        if not self.act_request():
+            return
+        sid = max(self.st)
+        s = self.st[sid]
+        if s['req'] != 'open' or s['cl'] is not None:
+            return
+        sent = rng.choice([300, 1000, 5000])
+        self.run({'op': 'send_data', 'c': 0, 'sid': sid, 'data': b'q' * sent, 'es': False, 'pad': None})
+        if rng.random() < 0.5:
+            self.flush()
+        if self.settings_in_flight[1] == 0:
+            obs = self.run({'op': 'update_settings', 'c': 1, 'settings': [(4, rng.choice([0, 10, 100, sent - 1]))]})
+            if obs['res'].startswith('ok'):
+                self.settings_in_flight[1] += 1
+        self.flush()
+        for _ in range(rng.randrange(1, 4)):
+            if self.dead or not self.live(1, sid):
+                return
+            self.run({'op': 'incr_window', 'c': 1, 'incr': rng.choice([50, sent, 2 * sent]), 'sid': sid})
+            self.flush()
+            room = self.room(0, sid)
+            if room > 0 and self.live(0, sid):
+                self.run({'op': 'send_data', 'c': 0, 'sid': sid, 'data': b'r' * min(room, rng.choice([1, room, 16384])), 'es': False, 'pad': None})
+                self.flush()
 
     # -- header lists ------------------------------------------------------------------------------------------------
     def pair(self, n, v):
